@@ -59,6 +59,9 @@ impl RateLimit {
 	pub fn new(raw_limits: &[(usize, String)]) -> Result<Self, Error> {
 		let mut limits = vec![];
 		for (nb, raw_duration) in raw_limits.iter() {
+			if *nb == 0 {
+				return Err("a rate limit must allow at least one request".into());
+			}
 			let parsed_duration = parse_duration(raw_duration)?;
 			limits.push((*nb, parsed_duration));
 		}
@@ -108,7 +111,7 @@ impl RateLimit {
 		let nb_mili = match min_duration.as_secs() {
 			0 | 1 => crate::MIN_RATE_LIMIT_SLEEP_MILISEC,
 			n => {
-				let a = n * 200 / nb_req;
+				let a = n.saturating_mul(200) / nb_req;
 				let a = cmp::min(a, crate::MAX_RATE_LIMIT_SLEEP_MILISEC);
 				cmp::max(a, crate::MIN_RATE_LIMIT_SLEEP_MILISEC)
 			}
@@ -118,21 +121,18 @@ impl RateLimit {
 
 	fn request_allowed(&self) -> bool {
 		for (max_allowed, duration) in self.limits.iter() {
-			match Instant::now().checked_sub(*duration) {
-				Some(max_date) => {
-					let nb_req = self
-						.query_log
-						.iter()
-						.filter(move |x| **x > max_date)
-						.count();
-					if nb_req >= *max_allowed {
-						return false;
-					}
-				}
-				None => {
-					return false;
-				}
+			let nb_req = match Instant::now().checked_sub(*duration) {
+				Some(max_date) => self
+					.query_log
+					.iter()
+					.filter(move |x| **x > max_date)
+					.count(),
+				// The period goes back further than the clock does: every request is in it.
+				None => self.query_log.len(),
 			};
+			if nb_req >= *max_allowed {
+				return false;
+			}
 		}
 		true
 	}
